@@ -1,0 +1,23 @@
+//! Hook points for external verification harnesses.
+//!
+//! Only compiled with the `verif-hooks` cargo feature. With the feature on and no callback
+//! installed, a hook point is a lock-free read and a branch. No behaviour of Kvarn depends on it.
+
+use std::sync::{Arc, RwLock};
+
+/// The callback type: the name of the hook point and a context value (e.g. a port).
+pub type Callback = dyn Fn(&'static str, u64) + Send + Sync;
+
+static CALLBACK: RwLock<Option<Arc<Callback>>> = RwLock::new(None);
+
+/// Installs (or removes) the process-global callback called at every hook point.
+pub fn set_callback(callback: Option<Arc<Callback>>) {
+    *CALLBACK.write().unwrap() = callback;
+}
+/// A hook point. Calls the installed callback, if any.
+pub fn point(name: &'static str, ctx: u64) {
+    let callback = CALLBACK.read().unwrap().clone();
+    if let Some(callback) = callback {
+        callback(name, ctx);
+    }
+}
